@@ -221,6 +221,19 @@ RejIdioms == <<
   <<"*", "ca", "[i:j]", "~", "$+">>,
   <<"*", "ca", "[i]">>
 >>
+\* relational operators are ONE level and group left to right: `n < k < h' is `(n < k) < h', a bool compared with an int,
+\* which is ill-typed whatever the values - it is not a bounds check.  (No other grouping evaluates either, so only
+\* the first two clauses of InvRejected apply to these.)
+RejChains == <<
+  <<"n", "<", "k", "<", "h">>,
+  <<"n", "<=", "k", "<", "h">>,
+  <<"h", ">", "k", ">", "n">>,
+  <<"h", ">=", "k", ">", "n">>,
+  <<"n", "<", "k", "<=", "h">>,
+  <<"n", "==", "k", "<", "h">>,
+  <<"n", "<", "k", ">=", "h", "<", "k">>
+>>
+RejAll == RejIdioms \o RejChains
 
 RECURSIVE ClassifyI(_, _, _)
 ClassifyI(names, i, st) ==
@@ -240,11 +253,11 @@ ClassifyI(names, i, st) ==
 Searched == SetToSeq(VPairSet) \o SetToSeq(VPreBinSet) \o SetToSeq(VBinPreSet) \o SetToSeq(VTripleSet)
 NSearched == Len(Searched)
 NPos == NSearched + Len(Idioms)
-NRows == NPos + Len(RejIdioms)
+NRows == NPos + Len(RejAll)
 
 RowFam(r) == IF r <= NSearched THEN Searched[r].fam ELSE IF r <= NPos THEN "v_idiom" ELSE "v_reject"
 RowToks(r) == IF r <= NSearched THEN Searched[r].toks
-              ELSE IF r <= NPos THEN ClassifyI(Idioms[r - NSearched], 1, "E") ELSE ClassifyI(RejIdioms[r - NPos], 1, "E")
+              ELSE IF r <= NPos THEN ClassifyI(Idioms[r - NSearched], 1, "E") ELSE ClassifyI(RejAll[r - NPos], 1, "E")
 
 \* operands of an idiom in order of first occurrence, embedded operands (i, j) last
 IdiomNames(toks) ==
@@ -333,7 +346,7 @@ InvRejected ==
   InRow /\ vRow > NPos =>
     /\ Ev(Group(Cur), vPick.env, Store0).v = TErr
     /\ \A t \in Others(Cur) : Ev(t, vPick.env, Store0).v # Unm
-    /\ \E t \in Others(Cur) : LET o == Ev(t, vPick.env, Store0) IN ~IsBad(o.v) /\ FirstOrder(o.v)
+    /\ (vRow <= NPos + Len(RejIdioms) => \E t \in Others(Cur) : LET o == Ev(t, vPick.env, Store0) IN ~IsBad(o.v) /\ FirstOrder(o.v))
 \* the hand-written idioms are all usable
 InvIdioms == InRow /\ vRow > NSearched => vPick.found
 \* evaluation is a function of the tree: the two other formulations of the grouping give the same value
@@ -342,5 +355,5 @@ InvEvalAgrees == InRow /\ vPick.found =>
 
 Emit ==
   /\ TLCGet("stats").distinct > 0
-  /\ PrintT(<<"VROWS", ToJson([searched |-> NSearched, idioms |-> Len(Idioms) + Len(RejIdioms)])>>)
+  /\ PrintT(<<"VROWS", ToJson([searched |-> NSearched, idioms |-> Len(Idioms) + Len(RejAll)])>>)
 =============================================================================
